@@ -157,8 +157,17 @@ pub fn check_speed(case: &SpeedCase, cx: &mut Ctx, id: &str, exact: bool) {
     let case = match &case.train {
         Some(t) => match catch(|| t.build_config().and_then(|c| c.make_train_params())) {
             Ok(Ok(p)) => {
+                // ... but only when it agrees with the oracle's own to 1e-9: with a length
+                // override the oracle keeps the override (the length the simulated train has),
+                // and a derived length that is neither shows as a profile that is extended by
+                // the wrong amount
+                let want = t.length();
+                let close = (p.length.value - want).abs() <= 1e-9 * want.abs().max(1.0);
+                cx.label_if(t.length_override.is_some(), "train_length_override");
+                cx.label_if(!close, "derived_train_length_differs_from_override_or_car_sum");
+                let p_length = if close && t.length_override.is_none() { p.length.value } else { want };
                 let mut c = case.clone();
-                c.tp.length = p.length.value;
+                c.tp.length = p_length;
                 adjusted = c;
                 &adjusted
             }
